@@ -171,6 +171,14 @@ def _validate_reflex(text, kind="reflex_vs_tokenize"):
         real = toklex.string_comment_spans(w)
     except toklex.TokInvalid:
         return None
+    try:
+        import warnings as _w
+
+        with _w.catch_warnings():
+            _w.simplefilter("ignore")
+            compile(w, "<w>", "exec")
+    except (SyntaxError, ValueError):
+        return None  # not a module: outside the premise (e.g. a number glued to a string prefix, "9r'..'")
     toks, _ = reflex.lex(w)
     if [(a, b) for _, a, b in toks] != [(a, b) for _, a, b in real]:
         raise core.Unsupported("reflex disagrees with tokenize on %r: %s vs %s" % (w, toks, real))
